@@ -519,6 +519,17 @@ func mkBin(op token.Token, x, y Val, t types.Type) Val {
 	if (op == token.EQL || op == token.NEQ) && x.Key() == y.Key() && !strings.Contains(x.Key(), "unknown") {
 		return boolV(op == token.EQL)
 	}
+	// bit masks: when every bit of the result is determined by the constants involved, the result is that constant
+	// ((x & 0x3f | 0x80) & 0xc0 is 0x80 whatever x is)
+	if op == token.AND || op == token.OR {
+		if w := bitWidth(t); w > 0 {
+			v := &BinV{Op: op, X: x, Y: y}
+			v.typ = t
+			if known, val := knownBits(v, w); known == widthMask(w) {
+				return constOf(constant.MakeUint64(val), t)
+			}
+		}
+	}
 	// x + 0, x - 0
 	if (op == token.ADD || op == token.SUB) && oky && cy.C != nil && cy.C.Kind() == constant.Int && constant.Sign(cy.C) == 0 {
 		return x
@@ -782,4 +793,76 @@ func isBoolType(t types.Type) bool {
 	}
 	b, ok := t.Underlying().(*types.Basic)
 	return ok && b.Info()&types.IsBoolean != 0
+}
+
+func isStringType(t types.Type) bool {
+	if t == nil {
+		return false
+	}
+	b, ok := t.Underlying().(*types.Basic)
+	return ok && b.Info()&types.IsString != 0
+}
+
+func bitWidth(t types.Type) int {
+	if t == nil {
+		return 0
+	}
+	b, ok := t.Underlying().(*types.Basic)
+	if !ok || b.Info()&types.IsInteger == 0 {
+		return 0
+	}
+	switch b.Kind() {
+	case types.Uint8, types.Int8:
+		return 8
+	case types.Uint16, types.Int16:
+		return 16
+	case types.Uint32, types.Int32:
+		return 32
+	case types.Uint64, types.Int64, types.Int, types.Uint, types.Uintptr:
+		return 64
+	}
+	return 0
+}
+
+func widthMask(w int) uint64 {
+	if w >= 64 {
+		return ^uint64(0)
+	}
+	return (uint64(1) << uint(w)) - 1
+}
+
+// knownBits: which bits of v (within w bits) are determined, and their values — constants are fully known, x & c
+// knows the zero bits of c, x | c the one bits of c; everything else is unknown.
+func knownBits(v Val, w int) (known, val uint64) {
+	m := widthMask(w)
+	switch x := v.(type) {
+	case *ConstV:
+		if x.C != nil && x.C.Kind() == constant.Int {
+			if u, ok := constant.Uint64Val(x.C); ok {
+				return m, u & m
+			}
+			if i, ok := constant.Int64Val(x.C); ok {
+				return m, uint64(i) & m
+			}
+		}
+	case *ConvV:
+		// widening or same-width conversions of unsigned bytes keep the low bits
+		return 0, 0
+	case *BinV:
+		switch x.Op {
+		case token.AND:
+			ka, va := knownBits(x.X, w)
+			kb, vb := knownBits(x.Y, w)
+			zero := (ka &^ va) | (kb &^ vb) // known zero in either operand
+			one := (ka & va) & (kb & vb)    // known one in both
+			return (zero | one) & m, one & m
+		case token.OR:
+			ka, va := knownBits(x.X, w)
+			kb, vb := knownBits(x.Y, w)
+			one := (ka & va) | (kb & vb)
+			zero := (ka &^ va) & (kb &^ vb)
+			return (zero | one) & m, one & m
+		}
+	}
+	return 0, 0
 }
